@@ -1,6 +1,6 @@
 (* Props/C14.v — the property theorems of C14 and nothing else.
    C14: transformations are total, pure functions with sound change reports. *)
-From Verif Require Import Base Transform TransformProofs.
+From Verif Require Import Base Utf8 Transform TransformProofs Utf8Proofs CaseMap CaseMapProofs.
 
 (* never 'unchanged' when the output differs — for every modelled transformation, every input *)
 Theorem C14_flag_sound : forall t s,
@@ -66,3 +66,72 @@ Theorem C14_remove_nulls_idem : forall s,
   t_out (t_remove_nulls (t_out (t_remove_nulls s))) = t_out (t_remove_nulls s).
 Proof. exact remove_nulls_idem. Qed.
 Print Assumptions C14_remove_nulls_idem.
+
+(* ---- lowercase / uppercase beyond ASCII: strings.ToLower / ToUpper = the simple case mapping applied rune
+   by rune (CaseMap.v), parametric in the range table that verif-facts regenerates from Go's unicode package;
+   the instances on the generated tables are in gen/FactsC14.v (apply_src_*, lowercase_src_spec, ...). ---- *)
+
+(* the change flag of a case map is exact: 'unchanged' iff output = input, for every table and byte string *)
+Theorem C14_case_flag_exact : forall tbl s, t_changed (t_case tbl s) = false <-> t_out (t_case tbl s) = s.
+Proof. exact t_case_flag. Qed.
+Print Assumptions C14_case_flag_exact.
+
+(* the whole registry with any case tables plugged in never reports 'unchanged' when the output differs *)
+Theorem C14_flag_sound_unicode : forall lo up t s,
+  t_err (apply_tu lo up t s) = false -> t_out (apply_tu lo up t s) <> s -> t_changed (apply_tu lo up t s) = true.
+Proof. exact all_flags_sound_u. Qed.
+Print Assumptions C14_flag_sound_unicode.
+
+(* multiMatch sees every intermediate value, for any apply function with sound flags (so with any tables) *)
+Theorem C14_multimatch_sees_all_unicode : forall lo up ts s v,
+  v = s \/ In v (chain_values_g (apply_tu lo up) ts s) -> In v (multimatch_values_g (apply_tu lo up) ts s).
+Proof. intros lo up. exact (multimatch_sees_all_g (apply_tu lo up) (all_flags_sound_u lo up)). Qed.
+Print Assumptions C14_multimatch_sees_all_unicode.
+
+Theorem C14_chain_last_unicode : forall lo up ts s,
+  last (chain_values_g (apply_tu lo up) ts s) s = fst (exec_tfs_g (apply_tu lo up) ts s).
+Proof. intros lo up. exact (chain_last_g (apply_tu lo up)). Qed.
+Print Assumptions C14_chain_last_unicode.
+
+(* on all-ASCII input the Unicode registry is the ASCII registry (tables agreeing with the byte maps on 0..127) *)
+Theorem C14_unicode_registry_ascii : forall lo up t s,
+  tbl_ascii_ok ascii_lower lo = true -> tbl_ascii_ok ascii_upper up = true -> all_ascii s = true ->
+  apply_tu lo up t s = apply_t t s.
+Proof. exact apply_tu_ascii. Qed.
+Print Assumptions C14_unicode_registry_ascii.
+
+(* the early exit of the table lookup is sound on a sorted table *)
+Theorem C14_case_table_lookup : forall tbl r, tbl_sorted tbl = true -> map_rune tbl r = map_rune_full tbl r.
+Proof. exact map_rune_sorted. Qed.
+Print Assumptions C14_case_table_lookup.
+
+(* UTF-8: decoding what EncodeRune wrote returns the rune and consumes exactly those bytes ... *)
+Theorem C14_utf8_decode_encode : forall r t,
+  decode_rune (encode_rune r ++ t) = (rune_norm r, length (encode_rune r)).
+Proof. exact decode_encode. Qed.
+Print Assumptions C14_utf8_decode_encode.
+
+(* ... and a decoding step that is not the width-1 replacement of a bad byte re-encodes to the bytes it read *)
+Theorem C14_utf8_encode_decode : forall s r w,
+  wf_bytes s -> decode_rune s = (r, w) ->
+  (match s with b0 :: _ => (b0 <? 128) || Nat.ltb 1 w | [] => false end) = true ->
+  encode_rune r = firstn w s.
+Proof. exact encode_decode. Qed.
+Print Assumptions C14_utf8_encode_decode.
+
+(* a case map leaves valid UTF-8 whose runes it does not map untouched (here: the identity mapping) ... *)
+Theorem C14_case_identity_on_valid_utf8 : forall s,
+  wf_bytes s -> valid_utf8 s = true -> utf8_map (fun r => r) s = s.
+Proof. exact utf8_map_id. Qed.
+Print Assumptions C14_case_identity_on_valid_utf8.
+
+(* ... and always produces valid UTF-8, whatever bytes it is given *)
+Theorem C14_case_output_valid_utf8 : forall f s, valid_utf8 (utf8_map f s) = true.
+Proof. exact utf8_map_valid. Qed.
+Print Assumptions C14_case_output_valid_utf8.
+
+(* F33, refuted half of 'equals the standard definition': a byte that is not UTF-8 becomes U+FFFD (3 bytes) *)
+Theorem C14_case_invalid_byte_refuted : forall tbl, map_rune tbl rune_error = rune_error ->
+  t_out (t_case tbl [255]) = [239; 191; 189] /\ t_changed (t_case tbl [255]) = true.
+Proof. exact t_case_invalid_byte_refuted. Qed.
+Print Assumptions C14_case_invalid_byte_refuted.
